@@ -21,6 +21,7 @@ type gor struct {
 	started bool
 	ready   func() bool // nil when runnable; otherwise the condition it waits for
 	depth   int
+	vc      vclock
 	fn      Value
 	args    []Value
 	what    string
@@ -58,6 +59,7 @@ func (ip *Interp) spawn(fn Value, args []Value, what string) {
 	g := &gor{id: len(s.gs), wake: make(chan struct{}, 1), fn: fn, args: args, what: what}
 	s.gs = append(s.gs, g)
 	s.live++
+	ip.raceSpawn(s.cur, g)
 	go func() {
 		<-g.wake
 		defer func() {
@@ -315,18 +317,37 @@ func (ip *Interp) chanSend(cv Value, v Value) {
 			ip.goPanic("send on closed channel")
 		}
 	}
-	item := &chanItem{v: copyVal(v)}
+	if ip.race != nil && c.cap > 0 && c.sends >= c.cap && c.sends-c.cap < len(c.recvVCs) {
+		// the k-th receive on a channel of capacity C is synchronised before the completion of the (k+C)-th send
+		ip.raceAcquire(c.recvVCs[c.sends-c.cap])
+	}
+	c.sends++
+	item := &chanItem{v: copyVal(v), vc: ip.raceRelease()}
 	c.items = append(c.items, item)
 	c.buf = append(c.buf, item.v)
 	if c.cap == 0 {
 		// rendez-vous: the send completes only when a receiver has taken the value
 		ip.block(func() bool { return item.taken }, "chan send (unbuffered)")
+		ip.raceAcquire(item.recvVC)
 	}
 }
 
 type chanItem struct {
-	v     Value
-	taken bool
+	v      Value
+	taken  bool
+	vc     vclock // sender's clock at the send
+	recvVC vclock // receiver's clock at the receive (unbuffered rendez-vous)
+}
+
+// chanTake is the receiver's side of the synchronisation of one item.
+func (ip *Interp) chanTake(c *ChanV, it *chanItem) {
+	it.taken = true
+	if ip.race != nil {
+		ip.raceAcquire(it.vc)
+		rv := ip.raceRelease()
+		it.recvVC = rv
+		c.recvVCs = append(c.recvVCs, rv)
+	}
 }
 
 func (ip *Interp) chanRecv(cv Value) (Value, bool) {
@@ -350,11 +371,12 @@ func (ip *Interp) chanRecv(cv Value) (Value, bool) {
 		v := c.buf[0]
 		c.buf = c.buf[1:]
 		if len(c.items) > 0 {
-			c.items[0].taken = true
+			ip.chanTake(c, c.items[0])
 			c.items = c.items[1:]
 		}
 		return v, true
 	}
+	ip.raceAcquire(c.closeVC)
 	return ip.zero(c.elem), false
 }
 
@@ -414,12 +436,13 @@ func (ip *Interp) selectOp(in *ssa.Select, fr *frame) Value {
 		val = c.buf[0]
 		c.buf = c.buf[1:]
 		if len(c.items) > 0 {
-			c.items[0].taken = true
+			ip.chanTake(c, c.items[0])
 			c.items = c.items[1:]
 		}
 	} else {
 		val = ip.zero(c.elem)
 		okv = false
+		ip.raceAcquire(c.closeVC)
 	}
 	res := TupleV{T.Const(64, uint64(chosen)), T.Bool(okv)}
 	for i, s := range in.States {
